@@ -307,7 +307,16 @@ func GenProject(t *rapid.T, o Opts) Project {
 		p.Units = append(p.Units, truth)
 	}
 	if ignoreDir != "" {
-		p.Files = append(p.Files, File{Path: ".gitignore", Text: ignoreDir + "/\n*" + ignoreSuffix + ".java\n"})
+		dirPattern := ignoreDir + "/"
+		if layout != "deep" && !pbtExcluded("gitignore_root_anchored_pattern") {
+			// the ignored directory sits at the root of the tree (not in the deep layout), so these all name it
+			dirPattern = rapid.SampledFrom([]string{ignoreDir + "/", ignoreDir + "/", "/" + ignoreDir + "/", "/" + ignoreDir}).Draw(t, "ignoreDirPattern")
+		}
+		text := dirPattern + "\n*" + ignoreSuffix + ".java\n"
+		if rapid.IntRange(0, 3).Draw(t, "gitignoreNoise") == 0 {
+			text = "# build output\n\n" + dirPattern + "\n\n# generated\n*" + ignoreSuffix + ".java\n"
+		}
+		p.Files = append(p.Files, File{Path: ".gitignore", Text: text})
 	}
 	if o.Layout {
 		nx := rapid.IntRange(0, 3).Draw(t, "nOther")
